@@ -157,10 +157,16 @@ int flush_pubsub_msgs(void *data, const char *key, void *value) {
     ps_priv_t *mm = NULL;
 
     const bool stopping_mod = key == NULL;
+    bool pilled = false;
     
     m_queue_t *flushed = m_queue_new(mem_dtor);
     if (!flushed) {
         M_WARN("Failed to create flushing queue.\n");
+    } else if (!stopping_mod && m_mod_is(mod, M_MOD_RUNNING)) {
+        /* Events still batched were received before any still enqueued message: they go first */
+        m_queue_t *tmp = mod->batch.events;
+        mod->batch.events = flushed;
+        flushed = tmp;
     }
 
     while (mod->pubsub_fd[0] != -1 &&
@@ -170,19 +176,30 @@ int flush_pubsub_msgs(void *data, const char *key, void *value) {
          * ie: we are stopping looping on the context.
          * Else, just free msg.
          */
-        if (!stopping_mod && m_mod_is(mod, M_MOD_RUNNING)) {
-            M_DEBUG("Flushing enqueued pubsub message for module '%s'.\n", mod->name);
-            evt_priv_t *msg = new_evt(mm->sub);
-            if (msg && flushed) {
-                msg->evt.ps_evt = &mm->msg;
-                m_queue_enqueue(flushed, msg);
-                continue;
+        if (!stopping_mod && !pilled && m_mod_is(mod, M_MOD_RUNNING)) {
+            if (mm->msg.system && mm->msg.topic && !strcmp(mm->msg.topic, M_PS_MOD_POISONPILL)) {
+                /* Nothing sent after the pill gets delivered; module is stopped once flushed */
+                pilled = true;
+            } else {
+                M_DEBUG("Flushing enqueued pubsub message for module '%s'.\n", mod->name);
+                evt_priv_t *msg = new_evt(mm->sub);
+                if (msg && flushed) {
+                    msg->evt.ps_evt = &mm->msg;
+                    msg->evt.userdata = mm->sub ? mm->sub->userptr : NULL;
+                    m_queue_enqueue(flushed, msg);
+                    continue;
+                }
             }
         }
         M_DEBUG("Destroying enqueued pubsub message for module '%s'.\n", mod->name);
         m_mem_unref(mm);
     }
-    call_pubsub_cb(mod, flushed);
+    M_MEM_LOCK(mod, {
+        call_pubsub_cb(mod, flushed);
+        if (pilled && m_mod_is(mod, M_MOD_RUNNING)) {
+            stop(mod, true);
+        }
+    });
     
     /* 
      * If we are stopping the ctx loop,
